@@ -139,7 +139,7 @@ class C07World(SrcWorld):
             bad("C07.fault", f"fault callback {self.faults(out)}")
         for r in out.get("S", {}).get("reparse", []):
             bad("C07.serialisation", f"{r['T']} PDU does not survive pack()/PduFactory.from_raw: {r}", T=r["T"], what=sorted(r)[0] if "diff" not in r else "diff:" + ",".join(sorted(r["diff"])))
-        judge_stream(self.c, st.src, 0, out["pre_stream"], out["pre_covered"], self.emitted(out), bad)
+        judge_stream(self.c, st.src, out.get("tx", 0), out["pre_stream"], out["pre_covered"], self.emitted(out), bad)
         return v
 
     def terminal_check(self, st):
